@@ -3,16 +3,22 @@
    registered and the request path is exactly "/" S "/" M; everything else is UNIMPLEMENTED and reaches
    no handler; registration order is irrelevant.  Names are byte strings.                           *)
 EXTENDS Bytes
+\* "long" = lab.routing.longnames.v1.ServiceWithAVeryLongName: with the long method names below its paths are 63, 64, 65, 128, 129 and 300 bytes long
 SvcBytes == ("a.S" :> <<97, 46, 83>>) @@ ("a.S2" :> <<97, 46, 83, 50>>) @@ ("S" :> <<83>>) @@ ("a.b.S" :> <<97, 46, 98, 46, 83>>) @@ ("a.s" :> <<97, 46, 115>>)
+            @@ ("long" :> <<108, 97, 98, 46, 114, 111, 117, 116, 105, 110, 103, 46, 108, 111, 110, 103, 110, 97, 109, 101, 115, 46, 118, 49, 46, 83, 101, 114, 118, 105, 99, 101, 87, 105, 116, 104, 65, 86, 101, 114, 121, 76, 111, 110, 103, 78, 97, 109, 101>>)
 AllSvcs == DOMAIN SvcBytes
+ShortMethods == {"M", "M2", "m"}
+LongName(n) == [i \in 1..n |-> <<76, 111, 110, 103, 77, 101, 116, 104, 111, 100, 78, 97, 109, 101>>[((i - 1) % 14) + 1]]      \* "LongMethodName" repeated
 MethBytes == ("M" :> <<77>>) @@ ("M2" :> <<77, 50>>) @@ ("m" :> <<109>>)
+             @@ ("L63" :> LongName(12)) @@ ("L64" :> LongName(13)) @@ ("L65" :> LongName(14)) @@ ("L128" :> LongName(77)) @@ ("L129" :> LongName(78)) @@ ("L300" :> LongName(249))
 Methods == DOMAIN MethBytes
+MethodsOf(sv) == IF sv = "long" THEN Methods ELSE ShortMethods
 Slash == <<47>>
 PathOf(sv, me) == Slash \o SvcBytes[sv] \o Slash \o MethBytes[me]
 \* the path component of a request target ends at the first '?' (RFC 3986 section 3)
 PathComponent(t) == LET q == SelectInSeq(t, LAMBDA c : c = 63) IN IF q = 0 THEN t ELSE SubSeq(t, 1, q - 1)
 \* Dispatch: the unique (service, method) whose exact path this is, if that service is registered
-Target(target, reg) == { <<sv, me>> \in reg \X Methods : PathOf(sv, me) = PathComponent(target) }
+Target(target, reg) == { <<sv, me>> \in reg \X Methods : me \in MethodsOf(sv) /\ PathOf(sv, me) = PathComponent(target) }
 DispatchOK(path, reg, handled) ==      \* handled: sequence of [svc, method] handler invocations observed
   IF Target(path, reg) = {} THEN handled = <<>>
   ELSE LET t == CHOOSE x \in Target(path, reg) : TRUE IN handled = << [svc |-> t[1], method |-> t[2]] >>
